@@ -612,7 +612,8 @@ impl StreamingConfig {
             return Err("retry.max_attempts must be greater than 0".to_string());
         }
 
-        if self.retry.jitter_factor < 0.0 || self.retry.jitter_factor > 1.0 {
+        // (NaN compares false both ways: test for membership, not for the two violations)
+        if !(0.0..=1.0).contains(&self.retry.jitter_factor) {
             return Err("retry.jitter_factor must be between 0.0 and 1.0".to_string());
         }
 
